@@ -33,7 +33,7 @@ TECHNIQUE = ('runtime oracle on serialize(format="ds9")/parse: input parameters 
 RULE = ('cases = (lane, precision p in 1..12 or default, list of 1..8 region specs); region spec = one of 11 DS9-expressible classes '
         '(circle, ellipse, rectangle, polygon, regular polygon, line, point, text, circle/ellipse/rectangle annulus) x frame in '
         '{image, icrs, fk5, fk4, galactic, barycentricmeanecliptic} x coordinates (edges 0/360/poles/-1 px, rounding ties, ints, '
-        'magnitudes 1e-9..1e6) x sizes >= 2*10^-p of the printed unit in deg/arcmin/arcsec/rad x angles of any magnitude/unit x '
+        'magnitudes 1e-9..1e6) x sizes >= 2*10^-p of the printed unit in deg/arcmin/arcsec/rad/mas/hourangle (Quantity or Angle; int/float/float32 pixels) x angles of any magnitude/unit x '
         'metadata (include True/False/1/0/absent, text with spaces ; # = quotes unicode, 0..3 tags, DS9 flags, dropped keys) x visual '
         '(colour names/#hex, face/edgecolor, linewidth, linestyle/dash/dashlist, fill, font*, marker+size, rotation/textangle); '
         'list modes: metadata none/shared/partly shared/disjoint, frames same/two/mixed; skip lane adds 1-2 compound or '
